@@ -70,8 +70,8 @@ func (f *fileDecorator) fragment(node ast.Node) {
 
 					// Avoid newlines in multi-line comments
 					if strings.HasPrefix(c.Text, "/*") {
-						startLine := f.Fset.Position(c.Pos()).Line
-						endLine := f.Fset.Position(c.End()).Line
+						startLine := f.Fset.PositionFor(c.Pos(), false).Line
+						endLine := f.Fset.PositionFor(c.End(), false).Line
 
 						// multi line comment
 						if endLine > startLine {
@@ -92,8 +92,8 @@ func (f *fileDecorator) fragment(node ast.Node) {
 						continue
 					}
 
-					startLine := f.Fset.Position(frag.Pos).Line
-					endLine := f.Fset.Position(frag.Pos + token.Pos(len(frag.String))).Line
+					startLine := f.Fset.PositionFor(frag.Pos, false).Line
+					endLine := f.Fset.PositionFor(frag.Pos+token.Pos(len(frag.String)), false).Line
 
 					// multi line string
 					if endLine > startLine {
@@ -108,8 +108,8 @@ func (f *fileDecorator) fragment(node ast.Node) {
 					// Newlines inside bad nodes are not printed by the formatter, so there is no
 					// need to reconstruct them in the restorer.
 
-					startLine := f.Fset.Position(frag.Pos).Line
-					endLine := f.Fset.Position(frag.Pos + token.Pos(frag.Length)).Line
+					startLine := f.Fset.PositionFor(frag.Pos, false).Line
+					endLine := f.Fset.PositionFor(frag.Pos+token.Pos(frag.Length), false).Line
 
 					if endLine > startLine {
 						for i := startLine; i < endLine; i++ {
@@ -127,7 +127,7 @@ func (f *fileDecorator) fragment(node ast.Node) {
 			tokenf := f.Fset.File(astf.Pos())
 			max := tokenf.Base() + tokenf.Size()
 			for i := tokenf.Base(); i < max; i++ {
-				pos := f.Fset.Position(token.Pos(i))
+				pos := f.Fset.PositionFor(token.Pos(i), false)
 				if pos.Line != line {
 
 					// if the line number has changed, we're on a new line
@@ -145,7 +145,7 @@ func (f *fileDecorator) fragment(node ast.Node) {
 					nextLine := line
 					if i < max-1 {
 						// can't peek forward at the end of the file
-						nextLine = f.Fset.Position(token.Pos(i + 1)).Line
+						nextLine = f.Fset.PositionFor(token.Pos(i+1), false).Line
 					}
 
 					if nextLine != line {
@@ -190,7 +190,7 @@ func (f *fileDecorator) fragment(node ast.Node) {
 	currentIndent := 0
 	for i, frag := range f.fragments {
 		if i == 0 || f.fragments[i-1].Newline() {
-			currentIndent = f.Fset.Position(frag.Position()).Column
+			currentIndent = f.Fset.PositionFor(frag.Position(), false).Column
 		}
 		switch frag := frag.(type) {
 		case *decorationFragment:
